@@ -25,6 +25,7 @@ func Run(c *hx.Ctx) {
 		return
 	}
 	if len(c.Args) > 0 && c.Args[0] == "poolsonly" { // development aid: only the real pools' ledger
+		c09.RunWin(c, "C10", c.N(200, 1500))
 		c09.RunMux(c, "C10", c.N(80, 500))
 		c09.RunH2(c, "C10", c.N(100, 600))
 		return
@@ -36,6 +37,9 @@ func Run(c *hx.Ctx) {
 	// tcp sessions do not share the process with what the pool worlds leave behind)
 	c03.RunMany(c, "C10", c.N(700, 2500), 8, true)
 	RunTcp(c, c.N(100, 500))
+	// the HTTP/1 and ping-pong pools' ledger per request end cause (harness/c09/win.go): every resource and gauge after
+	// every operation, long histories that end idle, max_requests 1..3
+	c09.RunWin(c, "C10", c.N(200, 1500))
 	c09.RunMux(c, "C10", c.N(80, 500))
 	c09.RunH2(c, "C10", c.N(100, 600))
 }
